@@ -84,6 +84,12 @@ CLAIMS["C03"] = dict(
   technique="must-pass-through for scanner errors and pending records + enumeration of omission decisions against an audited table",
   ref="DESIGN.md §3 C03")
 
+CLAIMS["C18"] = dict(
+  text="Shape rules for vulns.IsAffected: positive verdicts are reachable only under equal ecosystem and equal name (range verdicts additionally only for ECOSYSTEM, or SEMVER for npm, ranges), an unknown ecosystem answers false up front; inside the loops over entries and ranges only the constant true is returned (a negative range never ends the evaluation); the events are sorted on a private copy and searched on that same slice for the package's version, both comparators put the sentinel \"0\" first and use the ecosystem comparison; an exact hit is affected iff the event is introduced/last_affected, a position between events iff a previous event exists and is introduced; index discipline proved with the BinarySearchFunc contract. Level 'other': necessary conditions of the OSV evaluation; agreement with the specification's linear scan on all event lists is not decided.",
+  note="Trusted: go/ssa; slices.SortFunc/BinarySearchFunc/Clone contracts; deps.dev semver Compare.",
+  technique="edge dominance over normalised comparisons + comparator-closure inspection + bounds prover",
+  ref="DESIGN.md §3 C18")
+
 NA = {}
 
 
